@@ -616,6 +616,18 @@ Fixpoint commit_pubrels (l : acklog) (pks : list N) : acklog :=
   | k :: r => commit_pubrels (set_a_committed l (a_committed l ++ [APubRel k])) r
   end.
 
+(** re-register the subscriptions of a resumed session under the new connection id *)
+Fixpoint submap_add_all (m : list (str * list N)) (subs : list str) (id : N) : list (str * list N) :=
+  match subs with
+  | [] => m
+  | f :: r =>
+      let m' := match al_get str_eqb f m with
+                | Some ids => al_set str_eqb f (set_add N.eqb id ids) m
+                | None => al_set str_eqb f [id] m
+                end in
+      submap_add_all m' r id
+  end.
+
 Definition handle_new_connection (st : rstate) (conn : connection) (link : N) : R rstate :=
   let client := c_client conn in
   if negb (validate_clientid client) then Ok st
@@ -652,7 +664,8 @@ Definition handle_new_connection (st : rstate) (conn : connection) (link : N) : 
       if negb ((id_i =? id) && (id_o =? id) && (id_a =? id) && (id_t =? id)) then Panic P_SLAB_ALIGN
       else
         let st2 := {| r_cfg := r_cfg st1; r_graveyard := grave; r_conns := conns;
-                      r_cmap := al_set str_eqb client id (r_cmap st1); r_submap := r_submap st1;
+                      r_cmap := al_set str_eqb client id (r_cmap st1);
+                      r_submap := submap_add_all (r_submap st1) (c_subs conn2) id;
                       r_ibufs := ibufs; r_obufs := obufs; r_datalog := r_datalog st1; r_acks := acks;
                       r_trackers := trackers; r_ready := r_ready st1; r_notif := r_notif st1;
                       r_groups := r_groups st1; r_wills := wills; r_links := r_links st1;
@@ -870,6 +883,45 @@ Fixpoint firstnN {X} (n : N) (l : list X) {struct l} : list X :=
   | x :: r => if n =? 0 then [] else x :: firstnN (n - 1) r
   end.
 
+(** the per-publish part of forward_device_data: granted QoS, broker topic alias (one per
+    topic name: the alias of this topic if it has one — then the topic is cleared —, else a
+    newly allocated one sent along with the topic), subscription identifier *)
+Fixpoint alias_forwards (bal : option baliases) (qos : N) (subid : option N)
+         (l : list (option cursor * publish * option pprops))
+  : option baliases * list (option cursor * publish * option pprops) :=
+  match l with
+  | [] => (bal, [])
+  | (c, p, pr) :: r =>
+      let p1 := set_p_qos p qos in
+      let '(bal1, p2, pr1) :=
+        match bal with
+        | Some b =>
+            if utf8_valid (p_topic p1) then
+              let '(b', alias, existed) :=
+                match al_get str_eqb (p_topic p1) (ba_map b) with
+                | Some a => (b, Some a, true)
+                | None => let '(b', a) := ba_set_new_alias b (p_topic p1) in (b', a, false)
+                end in
+              let pr' := match alias with
+                         | Some _ =>
+                             let d := match pr with Some v => v | None => pprops_default end in
+                             Some {| pp_alias := alias; pp_subids := pp_subids d; pp_tag := pp_tag d |}
+                         | None => pr
+                         end in
+              (Some b', (if existed then set_p_topic p1 [] else p1), pr')
+            else (bal, p1, pr)
+        | None => (bal, p1, pr)
+        end in
+      let pr2 := match subid with
+                 | Some s =>
+                     let d := match pr1 with Some v => v | None => pprops_default end in
+                     Some {| pp_alias := pp_alias d; pp_subids := pp_subids d ++ [s]; pp_tag := pp_tag d |}
+                 | None => pr1
+                 end in
+      let '(bal2, r') := alias_forwards bal1 qos subid r in
+      (bal2, (c, p2, pr2) :: r')
+  end.
+
 Definition forward_device_data (st : rstate) (id : N) (rq : drequest)
   : R (rstate * drequest * consume_status) :=
   do o <- get_obuf st id;
@@ -917,39 +969,11 @@ Definition forward_device_data (st : rstate) (id : N) (rq : drequest)
       match publishes with
       | [] => Ok (st1, rq2, FilterCaughtup)
       | _ =>
-          let alias0 := match c_baliases conn with
-                        | Some b => al_get str_eqb (dr_filter rq2) (ba_map b)
-                        | None => None
-                        end in
-          let exists_ := match alias0 with Some _ => true | None => false end in
-          let '(conn1, alias) :=
-            if exists_ then (conn, alias0)
-            else match c_baliases conn with
-                 | Some b => let '(b', a) := ba_set_new_alias b (dr_filter rq2) in
-                             (set_c_baliases conn (Some b'), a)
-                 | None => (conn, None)
-                 end in
-          let subid := al_get str_eqb (dr_filter rq2) (c_subids conn1) in
+          let subid := al_get str_eqb (dr_filter rq2) (c_subids conn) in
           if 2 <? dr_qos rq2 then Panic P_QOS
           else
-            let fix_one (x : option cursor * publish * option pprops) :=
-              let '(c, p, pr) := x in
-              let p1 := set_p_qos p (dr_qos rq2) in
-              let pr1 := match alias with
-                         | Some _ =>
-                             let b := match pr with Some v => v | None => pprops_default end in
-                             Some {| pp_alias := alias; pp_subids := pp_subids b; pp_tag := pp_tag b |}
-                         | None => pr
-                         end in
-              let p2 := if exists_ then set_p_topic p1 [] else p1 in
-              let pr2 := match subid with
-                         | Some s =>
-                             let b := match pr1 with Some v => v | None => pprops_default end in
-                             Some {| pp_alias := pp_alias b; pp_subids := pp_subids b ++ [s]; pp_tag := pp_tag b |}
-                         | None => pr1
-                         end in
-              (c, p2, pr2) in
-            let forwards := map fix_one publishes in
+            let '(bal, forwards) := alias_forwards (c_baliases conn) (dr_qos rq2) subid publishes in
+            let conn1 := set_c_baliases conn bal in
             let st2 := put_conn st1 id conn1 in
             (* push_forwards *)
             let '(o1, notifs) :=
